@@ -164,3 +164,13 @@ Proof. exact add_compose_mixed_differs. Qed.
 Print Assumptions C09_compose_back.
 Print Assumptions C09_compose_forward.
 Print Assumptions C09_zero_shift.
+
+(* ---- order (session 5; Proofs/AddSorted.v): a start-ordered list stays start-ordered after any shift - clamping and
+   removal included, no start <= end hypothesis -, so a following Order is a no-op ---- *)
+From Astisub Require Import Proofs.OrderProofs Proofs.AddSorted.
+Theorem C09_preserves_order : forall d l, sorted l -> sorted (add_dur d l).
+Proof. exact add_sorted. Qed.
+Theorem C09_then_order : forall d l, sorted l -> order (add_dur d l) = add_dur d l.
+Proof. exact order_add_sorted. Qed.
+Print Assumptions C09_preserves_order.
+Print Assumptions C09_then_order.
